@@ -1,5 +1,5 @@
 /* C15 (determinism): the bytes encode produces for (configuration, data) do not depend on what
- * happened before: encode, then a nondeterministically chosen unrelated activity (create/destroy
+ * happened before: encode, then an unrelated activity (one of five, enumerated by the driver) (create/destroy
  * of another instance of the same or another back end, an encode on another instance, a failing
  * call, a destroyed-descriptor call), then encode again on a second instance created afterwards
  * AND on the first one: all three results byte-identical.  (Equality with the reference
@@ -8,6 +8,9 @@
 #include "inst.h"
 #include "erasurecode_backend.h"
 #define LEN 5
+#ifndef ACT
+#define ACT 0
+#endif
 #define UNIT (K * BE_WBYTES)
 #define SIZE (((LEN + UNIT - 1) / UNIT) * BE_WBYTES)
 #define FLEN (80 + SIZE)
@@ -28,7 +31,7 @@ int main(void)
     int d1 = mk_instance();
     ASSUME(d1 > 0);
     enc(d1, src, 0);
-    int act = vin_range(0, 4);
+    int act = ACT;      /* intervening activity, enumerated by the driver (a symbolic choice inlines all five activities: 7 GB) */
     struct ec_args a;
     memset(&a, 0, sizeof a);
     a.ct = CHKSUM_CRC32;
